@@ -401,6 +401,25 @@ def classify_incomplete(w):
     return None
 
 
+def rotated_cookie(ctx, env):
+    """Later connections of the same process: the server keeps handing out the same cookie id, but the secret stored
+    under it in the keyring has changed in between (a bus deletes cookies after use and numbers new ones from 1 again).
+    A conforming server that accepts only DBUS_COOKIE_SHA1 must still be reachable."""
+    global COOKIE
+    original = COOKIE
+    try:
+        for k in range(1, 5):
+            COOKIE = (b'%02x' % k) * 24
+            env.write_cookie(COOKIE_CTX.decode(), COOKIE_ID, COOKIE)
+            for unix in (True, False):
+                case = {'kind': 'rotated', 'k': k, 'unix': unix}
+                ctx.count('rotated_cookie_handshakes')
+                full_handshake(ctx, (b'DBUS_COOKIE_SHA1',), True, unix, 'data', case)
+    finally:
+        COOKIE = original
+        env.write_cookie(COOKIE_CTX.decode(), COOKIE_ID, COOKIE)
+
+
 def run(ctx):
     si, sn = ctx.shard or (0, 1)
     quick = ctx.tier == 'quick'
@@ -450,6 +469,7 @@ def run(ctx):
                                 full_handshake(ctx, accept, agree, unix, style, case)
                                 full_handshake(ctx, accept, agree, unix, style, dict(case, split=1),
                                                split_rng=random.Random(str(case)))
+            rotated_cookie(ctx, env)
         ctx.sample({'server_lines': [LINE[s].decode() for s in ('REJECTED', 'DATA_cookie', 'OK_guid', 'AGREE_UNIX_FD')],
                     'transport': 'UNIX'})
     ctx.require(ctx.counters.get('begins', 0) > 10, 'no BEGIN observed')
@@ -460,6 +480,10 @@ def replay(ctx, rp):
     case = rp['case']
     with authenv.AuthEnv() as env:
         env.write_cookie(COOKIE_CTX.decode(), COOKIE_ID, COOKIE)
+        if case.get('kind') == 'rotated':
+            full_handshake(ctx, (b'DBUS_COOKIE_SHA1',), True, case['unix'], 'data', {'kind': 'full'})
+            rotated_cookie(ctx, env)
+            return
         if case['kind'] == 'seq':
             r = random.Random(case['split']) if 'split' in case else None
             run_lines(ctx, case['symbols'], case['unix'], case, split_rng=r)
